@@ -19,16 +19,16 @@ Theorem upartial_cmp_spec a b : canon a -> canon b ->
   upartial_cmp a b = Ret (Some (val a ?= val b)).
 Proof. intros Ha Hb. unfold upartial_cmp, ucmp. rewrite cmp_slice_spec by auto. reflexivity. Qed.
 
-Theorem ipartial_cmp_spec x y : icanon x -> icanon y ->
-  ipartial_cmp x y = Ret (Some (ival x ?= ival y)).
-Proof. intros Hx Hy. unfold ipartial_cmp. rewrite icmp_spec by auto. reflexivity. Qed.
+Theorem ipartial_cmp_spec sp x y : sign_ok sp = true -> icanon x -> icanon y ->
+  ipartial_cmp sp x y = Ret (Some (ival x ?= ival y)).
+Proof. intros Hsp Hx Hy. unfold ipartial_cmp. rewrite icmp_spec by auto. reflexivity. Qed.
 
 (** `<  <=  >  >=` and partial_cmp agree with the numerical order, never trip a debug assertion *)
 Theorem uord_spec a b : canon a -> canon b -> uord a b = Ret (zord (val a) (val b)).
 Proof. intros Ha Hb. unfold uord. rewrite upartial_cmp_spec by auto. cbn [bind]. rewrite ord_of_compare. reflexivity. Qed.
 
-Theorem iord_spec x y : icanon x -> icanon y -> iord x y = Ret (zord (ival x) (ival y)).
-Proof. intros Hx Hy. unfold iord. rewrite ipartial_cmp_spec by auto. cbn [bind]. rewrite ord_of_compare. reflexivity. Qed.
+Theorem iord_spec sp x y : sign_ok sp = true -> icanon x -> icanon y -> iord sp x y = Ret (zord (ival x) (ival y)).
+Proof. intros Hsp Hx Hy. unfold iord. rewrite ipartial_cmp_spec by auto. cbn [bind]. rewrite ord_of_compare. reflexivity. Qed.
 
 (** BigInt's inherent checked_add / checked_sub: always Some(exact result), canonical *)
 Theorem ichecked_add_spec p x y : addsub_ok p = true -> icanon x -> icanon y ->
